@@ -28,9 +28,11 @@ AlmostOK(cls, res) ==
     [] cls = "nan"    -> res = FALSE
     [] OTHER          -> TRUE
 
-\* linear_interp(y0, y1, f) for f in [0, 1] stays in the hull of its end points (one rounding of the
-\* difference may overshoot the far end by one float), is exact at f = 0 and monotone in f
-InHull(r, y0, y1) == (IF y0 <= y1 THEN y0 ELSE y1) - 1 <= r /\ r <= (IF y0 <= y1 THEN y1 ELSE y0) + 1
+\* linear_interp(y0, y1, f) for f in [0, 1] stays in the hull of its end points up to the rounding of the
+\* larger of them (the difference y1 - y0 is rounded before it is scaled), is exact at f = 0 and monotone
+\* in f.  Stated on Q24 images of values of magnitude at most 2 (the lookup tables live in [-1, 1]): one
+\* float step there is at most two Q24 units.
+InHull(r, y0, y1) == (IF y0 <= y1 THEN y0 ELSE y1) - 2 <= r /\ r <= (IF y0 <= y1 THEN y1 ELSE y0) + 2
 
 \* the integer interpolation of PhaseAcc!Lerp has the same three properties (checked in MC_Utils)
 LerpI(y0, y1, f, c) == y0 + ((y1 - y0) * f) \div c
